@@ -71,9 +71,15 @@ class TlsProtocolVersion(ProtocolVersionBase, GradeableSimple):
         return self.major == 0x7e
 
     def __eq__(self, other):
+        if not isinstance(other, TlsProtocolVersion):
+            return NotImplemented
+
         return self.version.value.code == other.version.value.code
 
     def __lt__(self, other):
+        if not isinstance(other, TlsProtocolVersion):
+            return NotImplemented
+
         if self.major == other.major:
             return self.minor < other.minor
         if self.is_draft or self.is_google_experimental:
